@@ -361,7 +361,7 @@ def run_witness(u, scratch, failed_obligations, tier):
             return {"_error": "rsync failed: " + r.stderr[-300:]}
     crate_dir = os.path.join(copy, w["crate_dir"])
     tname = "verif_witness_" + u["unit"]
-    env = dict(os.environ, CARGO_NET_OFFLINE="true", CARGO_TARGET_DIR=os.path.join(scratch, "target"))
+    env = dict(os.environ, CARGO_NET_OFFLINE="true", CARGO_TARGET_DIR=os.path.join(scratch, "target"), VERIF_TIER=tier, RUST_BACKTRACE="0")
     if w.get("append_to"):
         # in-crate unit tests (private items): the witness module is appended to a source file of the scratch copy
         tgt = os.path.join(copy, w["append_to"])
@@ -381,7 +381,8 @@ def run_witness(u, scratch, failed_obligations, tier):
         results[m.group(1).split("::")[-1]] = m.group(2)
     if not results:
         return {"_error": "witness crate did not build/run: " + out[-1500:]}
-    return {"_results": results, "_cmd": " ".join(cmd), "_output": out[-6000:], "_map": w.get("map", {})}
+    shown = r.stdout[-9000:] + "\n--- stderr (tail) ---\n" + r.stderr[-1200:]
+    return {"_results": results, "_cmd": " ".join(cmd), "_output": shown, "_map": w.get("map", {})}
 
 
 def main():
@@ -467,10 +468,12 @@ def do_check(prop, args, scratch, seed, t0):
     # against the property statement is still a violation with a failing input — decided by a bounded native check,
     # labelled as such, never counted as proved.
     und_units = {r["unit"] for r in results if r["undecided"]}
-    need_witness = args.tier == "thorough" or any(f["obligation"] not in known_open for _, f in failures) or bool(und_units)
+    # (d) in the quick tier too for units that ask for it (`witness_in_quick`): parts of a property that live in code no
+    # contract reaches (proc-macros, serde attributes, thin delegating wrappers) are at least exercised on every change.
+    need_witness = True
     if need_witness:
         for u in units:
-            if u.get("witness") and (args.tier == "thorough" or u["unit"] in und_units
+            if u.get("witness") and (args.tier == "thorough" or u.get("witness_in_quick") or u["unit"] in und_units
                                      or any(n == u["unit"] for n, _ in failures)):
                 failed = [f["obligation"] for n, f in failures if n == u["unit"]]
                 witness[u["unit"]] = run_witness(u, scratch, failed, args.tier)
@@ -517,7 +520,7 @@ def do_check(prop, args, scratch, seed, t0):
                                "found_failing_input": True}, open(rp, "w"), indent=1)
                     how = "verifier-undecided;decided-by=bounded-native-witness" if unit in und_units else "native-witness"
                     violations.append(f"VIOLATION property={prop} replay={rp} {how}={t}")
-        elif "_error" in w and args.tier == "thorough":
+        elif "_error" in w:
             undecided.append((unit, "witness: " + w["_error"]))
 
     all_obs = [o for r in results for o in r["obligations"]]
